@@ -32,6 +32,17 @@ CLAIMED['C06'] = dict(
     technique='function contracts on the extracted real bodies; integer pairs by integer-theory VCs (z3 5.1), double/float bodies by CBMC DFCC contract enforcement; two-point lemmas over the bodies',
     design='4/C06')
 
+CLAIMED['C08'] = dict(
+    text='Contract proof over the real bodies of packed_channel_reference / packed_dynamic_channel_reference (get, set_unsafe, '
+         'set_from_reference, operator=), the proxy arithmetic of packed_channel_reference_base (set, ++, --, +=, -=, *=, /=), '
+         'get_data/set_data/static_copy_bytes and the bit cursor (bit_range ++/--/bit_advance/bit_distance_to, '
+         'bit_aligned_pixel_iterator advance/distance_to): a write stores the value, reads back, changes no other bit of the '
+         'carrier and no neighbouring byte, for every carrier content; cursor moves are exact and invertible for buffers up to 2^40 bytes.',
+    note=TRUST + 'Carrier/width instantiations are a finite list (8/16/32/64-bit carriers, widths 1..32); whole-pixel swap/fill/copy '
+         'drivers (template recursion) are not extracted; bit_range accessors inlined by rule.',
+    technique='function contracts with frame (assigns) clauses enforced by CBMC DFCC on the extracted real bodies, callees replaced by their contracts; lemma harnesses over contracts',
+    design='4/C08')
+
 NOT_APPLICABLE = {
     'C12': 'relates two whole template pipelines through a file/stream and external C libraries; no function contract within reach of a C verifier states what read_image returns after write_view (DESIGN 5)',
     'C13': 'equality of results of different compositions of reader classes/devices/policies over the same bytes is a relational property over I/O histories, not a pre/postcondition of an extractable function (DESIGN 5)',
